@@ -1,11 +1,11 @@
 #!/bin/bash
-# usage: confirm_seed.sh <worktree> <ID> <demo test filter>
+# usage: confirm_seed.sh <worktree> <ID> <demo test filter> [extra nextest/cargo args, e.g. --features ...]
 # Confirms a seeded change in a scratch worktree: demo fails with the change, passes without, existing suite passes with it.
-wt="$1"; id="$2"; filter="$3"
+wt="$1"; id="$2"; filter="$3"; extra="${4:-}"
 out="$wt/out/$id"; log="$out/confirm.log"
 cd "$wt" || exit 2
 git checkout -q -- . ; git clean -qfd -e out -e target
-NX="cargo nextest run --workspace --no-fail-fast --tool-config-file pb:/w/lib/nextest.toml --profile pb --test-threads 8 --offline"
+NX="cargo nextest run --workspace --no-fail-fast --tool-config-file pb:/w/lib/nextest.toml --profile pb --test-threads 8 --offline $extra"
 {
 echo "== demo WITHOUT change"
 git apply "$out/demo.diff" || echo "DEMO DOES NOT APPLY"
